@@ -326,7 +326,7 @@ def StepNoSteal : Teardown.Step → Prop
   | _ => True
 
 theorem step_evolves (rule : Pump.Rule) (t : Topo) (s : Sys) (st : Teardown.Step) (hs : StepNoSteal st) :
-    SysEvolves rule (footprint t st) s (Teardown.step rule t s st).1 := by
+    SysEvolves rule (footprint t s st) s (Teardown.step rule t s st).1 := by
   cases st with
   | prim w c => exact prim_evolves rule t s w c hs
   | fwd w r =>
@@ -374,6 +374,14 @@ theorem step_evolves (rule : Pump.Rule) (t : Topo) (s : Sys) (st : Teardown.Step
         · exact (flushReads_evolves rule t w r _ _).1
         · exact (flushReads_evolves rule t w r _ _).2
       · exact SysEvolves.refl rule _ s
+  | sinkAnswer k a =>
+    simp only [Teardown.step, footprint]
+    cases hq : s.queue k with
+    | nil => simp only; exact SysEvolves.refl rule _ s
+    | cons e rest =>
+      obtain ⟨w, r⟩ := e
+      simp only
+      exact prim_evolves rule t { s with queue := fun x => if x = k then rest else s.queue x } w (.w (.answer r a)) (by simp)
   | down td => exact closes_evolves rule t s (closes t td)
 
 def RunNoSteal (h : List Teardown.Step) : Prop := ∀ st ∈ h, StepNoSteal st
@@ -733,6 +741,14 @@ theorem backed_step (rule : Pump.Rule) (t : Topo) (s : Sys) (st : Teardown.Step)
       · intro x; rw [setReads_comp]
         exact backed_flush rule t w r { s with inbox := fun x y => if x = w ∧ y = r then [] else s.inbox x y } _ (fun y => hb y) x
       · exact hb
+  | sinkAnswer k a =>
+    simp only [Teardown.step]
+    cases hq : s.queue k with
+    | nil => exact hb
+    | cons e rest =>
+      obtain ⟨w, r⟩ := e
+      simp only
+      exact backed_prim rule t { s with queue := fun x => if x = k then rest else s.queue x } w _ (fun y => hb y)
   | down td => exact backed_closes rule t s _ hb
 
 theorem backed_run (rule : Pump.Rule) (t : Topo) (s : Sys) (h : List Teardown.Step) (hb : AllBacked s) :
